@@ -95,7 +95,7 @@ Proof.
   destruct (Qeq_bool (Qeval cen h) 0); [discriminate|].
   destruct (Qle_bool (Qred (Qeval cen g / Qeval cen h)) 0) eqn:Hle; [discriminate|].
   destruct (pe_eqb g (PEmul (PEc (Qred (Qeval cen g / Qeval cen h))) h)) eqn:Hg; [|discriminate].
-  inversion Hf; subst c. split.
+  apply (f_equal (fun o => match o with Some x => x | None => 0%Q end)) in Hf. cbv beta iota in Hf. subst c. split.
   - apply Qnot_le_lt. intro Hc. apply Qle_bool_iff in Hc. congruence.
   - intro l. rewrite (Qnorm_sound l _ _ H3).
     change (Reval l (PEmul G2 g)) with (Reval l G2 * Reval l g)%R.
